@@ -1,7 +1,7 @@
 ------------------------------- MODULE MCCache -------------------------------
 EXTENDS Cache
-\* types 1 and 2 collide, 3 collides with them after the first rehash only
-HashDef(t) == CASE t = 1 -> 0 [] t = 2 -> 2 [] t = 3 -> 4 [] OTHER -> t
+\* types 1 and 2 collide, 3 collides with them after the first rehash only; type 9 has the very same hash as type 1
+HashDef(t) == CASE t = 1 -> 0 [] t = 2 -> 2 [] t = 3 -> 4 [] t = 9 -> 0 [] OTHER -> t
 WantDef == @WANT@
 MutDef == @MUT@
 =============================================================================
